@@ -22,7 +22,7 @@ LEVEL = "exploration"
 RULE = ("scenario = 2..4 concurrent send_message callers on one stream pair (staggered starts, own timeouts) + peer answers in a "
         "generated permutation/timing + unrelated notifications/foreign responses; non-trivial = an answer was delivered while at "
         "least two callers were waiting")
-PROBES = ["answer_consumed_by_other_waiter", "answer_on_poll_edge", "answers_out_of_call_order", "answer_at_deadline"]
+PROBES = ["int_and_digit_string_twin_ids", "answer_consumed_by_other_waiter", "answer_on_poll_edge", "answers_out_of_call_order", "answer_at_deadline"]
 TIERS = {"quick": {"runs": 25000, "wall": 45.0}, "thorough": {"runs": 2000000, "wall": 560.0}}
 ASSUMPTIONS = ["an answer is only sent after the peer has seen the request (a server cannot answer an id it has not received)"]
 SHRINK_LISTS = ["events"]
@@ -37,9 +37,16 @@ def generate(rng: random.Random, tier: str) -> dict:
         callers.append({
             "start": rng.choice([0, 0, 0, 1, 5, 256, 512, 517, rng.randrange(0, 1200)]),
             "timeout": rng.choice(TIMEOUTS),
-            "mid": rng.choice([None, f"c{i}", f"{i + 1}", f"req-{i}"]),
+            "mid": rng.choice([None, f"c{i}", f"{i + 1}", f"req-{i}", i + 1, 7, "7"]),
             "method": rng.choice(["tools/list", "ping", "x/y"]),
         })
+    # ids must be distinct as JSON values (7 and "7" are distinct ids)
+    seen = set()
+    for c in callers:
+        key = (type(c["mid"]).__name__, c["mid"])
+        if c["mid"] is not None and key in seen:
+            c["mid"] = None
+        seen.add(key)
     events = []
     order = list(range(n))
     rng.shuffle(order)
@@ -250,6 +257,9 @@ def execute(scn: dict) -> dict:
             V("timeout-instant", "not-at-deadline", f"caller {i} timed out at {st['t_done'][i]} but its deadline was {deadline}")
     if [i for _, i in sorted(first_answer_order)] != sorted(i for _, i in first_answer_order):
         probe("answers_out_of_call_order")
+    mids = [c["mid"] for c in callers if c["mid"] is not None]
+    if any(isinstance(a, int) and str(a) in [b for b in mids if isinstance(b, str)] for a in mids):
+        probe("int_and_digit_string_twin_ids")
     for d in delivered:
         out["faults"]["deliver:" + d["ev"]["kind"]] = out["faults"].get("deliver:" + d["ev"]["kind"], 0) + 1
     out["history"] = hist
